@@ -99,9 +99,19 @@ def make_container(vkind, n, nullpat, cont):
 def _columns(obj):
     """-> ordered {column name or None: list of scalars} of a library result (pandas / polars / numpy, 1-D or 2-D)"""
     import polars as pl
-    if isinstance(obj, (pd.Series, pl.Series)): return {None: list(obj.to_numpy())}
+    def pl_list(s):
+        # polars keeps its own validity: a temporal entry whose stored integer is -2^63 is a VALID (absurd) time for polars although NumPy reads that integer as NaT -
+        # reading the result through NumPy alone would take "the integer null re-labelled as a time" for a proper null
+        a = list(s.to_numpy())
+        if isinstance(s.dtype, (pl.Datetime, pl.Duration)):
+            for i, (isn, ph) in enumerate(zip(s.is_null().to_list(), s.to_physical().to_list())):
+                if not isn and ph == -2 ** 63: a[i] = "valid polars time holding -2^63 (the integer null re-labelled as a time)"
+        return a
+    if isinstance(obj, pl.Series): return {None: pl_list(obj)}
+    if isinstance(obj, pl.DataFrame): return {c: pl_list(obj[c]) for c in obj.columns}
+    if isinstance(obj, pd.Series): return {None: list(obj.to_numpy())}
     if isinstance(obj, np.ndarray) and obj.ndim == 1: return {None: list(obj)}
-    if isinstance(obj, (pd.DataFrame, pl.DataFrame)): return {c: list(obj[c].to_numpy()) for c in obj.columns}
+    if isinstance(obj, pd.DataFrame): return {c: list(obj[c].to_numpy()) for c in obj.columns}
     raise TypeError(type(obj))
 
 
@@ -204,12 +214,25 @@ def cases(tier, seed):
         G("float", "contig", "float", "pldf", N),
         G("int", "thr", "float", "df", NC, nmin=2),
         G("float", "contig", "timedelta", "pl", N),
+        G("float", "contig", "datetime", "pl", N),
+        G("int", "contig", "datetime", "pldf", N),
         G("str", "contig", "int", "np", N),
         G("float", "pa", "timedelta", "dict", NC, nmin=2),
         G("two", "contig", "int", "pldf", N),
         G("cat", "contig", "float", "pd", N),
     ]
     return C.roundrobin(*streams)
+
+
+def extra_cases(tier, seed):
+    """designed cases, run before the enumeration: a group whose values are ALL null while every key is present and every group has rows (the broadcast result of such a
+    group is the null of the value type - NaT for temporal values - whatever the per-group counters say), for every value class in every container"""
+    keys = [0, 1, 0, 1, 2]
+    for vkind in ("datetime", "timedelta", "float", "int"):
+        for cont in CONTS:
+            for pat in ([True, False, True, False, False], [False, True, False, True, True]):
+                if vkind == "int" and cont in ("np", "dict"): continue        # a NumPy integer array has no null
+                yield {"keys": keys, "kkind": "float", "rep": "contig", "splits": None, "pre": None, "sort": True, "vkind": vkind, "cont": cont, "nullpat": pat, "mask": None, "null_in_sorted_prefix": False}
 
 
 def random_case(rnd, tier):
